@@ -1,3 +1,2 @@
-import Driver.Loop
-/-! Driver for group `autotraits`: replace `[]` by this group's handlers. -/
-def main : IO Unit := TF.Driver.run []
+import Driver.Autotraits
+def main : IO Unit := TF.Driver.run [TF.Driver.handleAutotraits]
